@@ -40,7 +40,7 @@ for i in ids:
           "quick_cmd":f"./bin/sdfx-smt check {i} --tier quick",
           "thorough_cmd":f"./bin/sdfx-smt check {i} --tier thorough",
           "evidence_file":f"/verif/evidence/{i}.json",
-          "replay_cmd_template":"cat {path}   # the file names harness, model values and the go test command used",
+          "replay_cmd_template":"./bin/sdfx-smt replay {path}",
           "engine":"sdfx-smt",
           "level_claimed":{"category":"model_checking","text":"bounded symbolic execution of the real Go code from /repo's SSA with SMT discharge: "+text,"design_ref":"DESIGN.md §4 "+i},
           "level_note":note+". "+BASE,
